@@ -1,9 +1,15 @@
-"""Prototype: written-form SMILES generator.
+"""E2 - written-form SMILES generator.
 
-Shape = (parent[], ring pairs) over atoms 0..n-1 in written (DFS pre-) order.
-  parent[i] < i ; children of a node are written in increasing index order, the last one is the
-  chain continuation, the others parenthesised.  A parent vector is a valid DFS pre-order iff
-  the "current path" discipline holds: parent[i] must be on the path root..(i-1).
+G1: every *written form* with exactly n atoms:
+    shape      = ordered rooted tree on the atom sequence 0..n-1 in written (DFS pre-) order, given as a parent
+                 vector (parent[i] on the current path root..i-1); the children of an atom are written in index
+                 order, the last child is the chain continuation, the others are parenthesised   [Catalan(n-1)]
+    ring bonds = every set of <= r pairs of atoms that are not tree-adjacent
+    digits     = every order of the ring-bond digits written at an atom
+    labels     = a labelling scheme: fresh ascending / descending / two-digit %nn / lowest-free reuse
+    atom and bond spellings come from per-property palettes.
+G2: every DFS spelling of one molecular graph (every start atom x every order of visiting unvisited neighbours),
+    each with the permutation back to the graph's own numbering.
 """
 import itertools
 
@@ -14,7 +20,6 @@ def parent_vectors(n):
         if i == n:
             yield tuple(par)
             return
-        # parent of i must be on current path (ancestors of i-1 incl. itself)
         for k in range(len(path)):
             p = path[k]
             yield from rec(i + 1, par + [p], path[:k + 1] + [i])
@@ -23,16 +28,15 @@ def parent_vectors(n):
     yield from rec(1, [None], [0])
 
 
-def ring_sets(n, par, rmax):
+def ring_sets(n, par, rmax, rmin=0):
     tree = {(par[i], i) for i in range(1, n)}
     pairs = [(a, b) for a in range(n) for b in range(a + 1, n) if (a, b) not in tree]
-    for r in range(0, rmax + 1):
+    for r in range(rmin, rmax + 1):
         yield from itertools.combinations(pairs, r)
 
 
-def label_schemes(rings, n, scheme):
-    """assign a label to each ring (a<b) given writing order. returns dict ring->label"""
-    # opening order: by a, then by position in digit order at a (handled by caller giving rings in opening order)
+def label_schemes(rings, scheme):
+    """rings in opening order -> {ring: label}"""
     lab = {}
     if scheme == "fresh":
         for k, r in enumerate(rings):
@@ -44,16 +48,17 @@ def label_schemes(rings, n, scheme):
         for k, r in enumerate(rings):
             lab[r] = 10 + k
     elif scheme == "reuse":
-        # lowest free label at opening time; ring (a,b) is free again after atom b
         open_until = {}
         for r in rings:
             a, b = r
-            used = {l for l, (ra, rb) in open_until.items() if rb >= a}  # still open at a (closing at a counts as used: conservative)
+            used = {l for l, (ra, rb) in open_until.items() if rb >= a}
             l = 1
             while l in used:
                 l += 1
             lab[r] = l
             open_until[l] = r
+    else:
+        raise ValueError(scheme)
     return lab
 
 
@@ -62,13 +67,12 @@ def lab_str(l):
 
 
 def write(n, par, rings, atom_tok, bond_tok, ring_tok=None, scheme="fresh", digit_perm=None):
-    """atom_tok[i] string; bond_tok[i] symbol for bond parent->i ('' implicit);
-    ring_tok[(a,b)] = (sym at a, sym at b); digit_perm[i] = permutation function/list for digits at atom i"""
+    """atom_tok[i]: atom spelling; bond_tok[i]: symbol written for the bond parent->i ('' = none);
+    ring_tok[(a,b)] = (symbol at a, symbol at b); digit_perm[i] = order of the digits at atom i"""
     children = [[] for _ in range(n)]
     for i in range(1, n):
         children[par[i]].append(i)
     rings = sorted(rings)
-    # digits at each atom: closes (b==i) and opens (a==i)
     at = [[] for _ in range(n)]
     for r in rings:
         at[r[0]].append(r)
@@ -79,16 +83,21 @@ def write(n, par, rings, atom_tok, bond_tok, ring_tok=None, scheme="fresh", digi
         if digit_perm and i in digit_perm:
             lst = [lst[k] for k in digit_perm[i]]
         order_at.append(lst)
-    # opening order for labels
     opening = []
     for i in range(n):
         for r in order_at[i]:
             if r[0] == i:
                 opening.append(r)
-    lab = label_schemes(opening, n, scheme)
+    lab = label_schemes(opening, scheme)
     out = []
-
-    def emit(i):
+    # iterative emission (deep chains must not hit the recursion limit of the harness itself)
+    stack = [("atom", 0)]
+    while stack:
+        kind, x = stack.pop()
+        if kind == "text":
+            out.append(x)
+            continue
+        i = x
         out.append(atom_tok[i])
         for r in order_at[i]:
             sym = ""
@@ -96,37 +105,58 @@ def write(n, par, rings, atom_tok, bond_tok, ring_tok=None, scheme="fresh", digi
                 sym = ring_tok[r][0 if r[0] == i else 1]
             out.append(sym + lab_str(lab[r]))
         ch = children[i]
+        todo = []
         for k, c in enumerate(ch):
             last = (k == len(ch) - 1)
             if not last:
-                out.append("(")
-            out.append(bond_tok[c])
-            emit(c)
+                todo.append(("text", "("))
+            todo.append(("text", bond_tok[c]))
+            todo.append(("atom", c))
             if not last:
-                out.append(")")
-    emit(0)
+                todo.append(("text", ")"))
+        stack.extend(reversed(todo))
     return "".join(out)
 
 
-def g1(n, rmax, schemes=("fresh",), all_digit_orders=True):
-    """yield (par, rings, scheme, digit_perm) for exactly n atoms"""
+def digit_orders(rings, all_orders=True):
+    at = {}
+    for r in rings:
+        at.setdefault(r[0], []).append(r)
+        at.setdefault(r[1], []).append(r)
+    multi = [i for i, l in sorted(at.items()) if len(l) > 1]
+    if all_orders and multi:
+        perm_lists = [list(itertools.permutations(range(len(at[i])))) for i in multi]
+        return [dict(zip(multi, combo)) for combo in itertools.product(*perm_lists)]
+    return [None]
+
+
+def g1_shapes(n, rmax, rmin=0):
     for par in parent_vectors(n):
-        for rings in ring_sets(n, par, rmax):
-            at = {}
-            for r in rings:
-                at.setdefault(r[0], []).append(r)
-                at.setdefault(r[1], []).append(r)
-            multi = [i for i, l in at.items() if len(l) > 1]
-            if all_digit_orders and multi:
-                perm_lists = [list(itertools.permutations(range(len(at[i])))) for i in multi]
-                dps = [dict(zip(multi, combo)) for combo in itertools.product(*perm_lists)]
-            else:
-                dps = [None]
-            for dp in dps:
-                for sc in schemes:
-                    if sc == "reuse" and dp is not None:
-                        continue  # reuse scheme only with canonical digit order (label validity simple there)
-                    yield par, rings, sc, dp
+        for rings in ring_sets(n, par, rmax, rmin):
+            yield par, rings
+
+
+def g1(n, rmax, schemes=("fresh",), all_digit_orders=True, rmin=0):
+    """yield (par, rings, scheme, digit_perm) for exactly n atoms"""
+    for par, rings in g1_shapes(n, rmax, rmin):
+        for dp in digit_orders(rings, all_digit_orders):
+            for sc in schemes:
+                if sc == "reuse" and dp is not None:
+                    continue    # lowest-free reuse is only well defined for the canonical digit order
+                if not rings and sc != schemes[0]:
+                    continue
+                yield par, rings, sc, dp
+
+
+def degrees(n, par, rings):
+    deg = [0] * n
+    for i in range(1, n):
+        deg[i] += 1
+        deg[par[i]] += 1
+    for a, b in rings:
+        deg[a] += 1
+        deg[b] += 1
+    return deg
 
 
 def g2(adj, start):
@@ -148,3 +178,17 @@ def g2(adj, start):
             yield from rec(order + [b], parent, stack + [b], visited | {b})
             del parent[b]
     yield from rec([start], {start: None}, [start], {start})
+
+
+def spelling_from_traversal(adj, order, parent):
+    """(par vector, rings) in the numbering of the traversal; order[k] = original atom written k-th"""
+    idx = {a: i for i, a in enumerate(order)}
+    n = len(order)
+    par = [None] * n
+    tree = set()
+    for a, p in parent.items():
+        if p is not None:
+            par[idx[a]] = idx[p]
+            tree.add((min(idx[a], idx[p]), max(idx[a], idx[p])))
+    allb = {(min(idx[a], idx[b]), max(idx[a], idx[b])) for a in range(n) for b in adj[a]}
+    return par, sorted(allb - tree)
